@@ -84,10 +84,22 @@ def core_groups():
                     for tag in (None, 0, n - 1):
                         for rep in (True, False):
                             U.append((start, nrd, delay, rep, False, 1, 0, n, [] if tag is None else [(tag, 1, 0)]))
-    return {"A": A, "B": B, "C": C, "U": U}
+    # F  fractional repair delays (quarter / half days), reporting delay 0 / 1 / 2, one tag on any day:
+    #    the real classes compare an integer day counter with delay + reporting delay
+    F = []
+    for n in range(1, 8):
+        for nrd in range(1, 7):
+            for start in _starts(nrd, n):
+                for delay in (0.25, 0.5, 0.75, 1.5, 2.5, 3.25):
+                    for tag in range(n):
+                        for trd in (0, 1, 2):
+                            F.append((start, nrd, delay, True, False, 1, 0, n, [(tag, 1, trd)]))
+                            if delay in (0.75, 2.5) and trd != 2:
+                                F.append((start, nrd, delay, True, True, 2, 1, n, [(tag, 1, trd)]))
+    return {"A": A, "B": B, "C": C, "U": U, "F": F}
 
 
-QUICK_CORE = {"A": 6000, "B": 7000, "C": 4500, "U": 120}
+QUICK_CORE = {"A": 6000, "B": 7000, "C": 4500, "U": 120, "F": 2500}
 
 
 def boundary_cases():
@@ -110,6 +122,8 @@ def random_case(rng, big=False):
         delay = rng.randint(0, 3)
         ntags = rng.choice([0, 1, 1, 1, 2, 2, 3])
     rep, inter, ad, idur = rng.choice(KINDS)
+    if rep and rng.random() < 0.12:
+        delay = rng.choice([0.25, 0.5, 0.75, 1.25, 2.5, 6.5, 10.25] if big else [0.25, 0.5, 0.75, 1.5, 2.5])
     if big and inter:
         ad, idur = rng.randint(1, 9), rng.randint(1, 9)
     evs = sorted((rng.randrange(n), rng.randint(1, 3), rng.choice([0, 0, 1, 2, 3] if not big else [0, 1, 2, 5, 14]))
@@ -165,6 +179,16 @@ def nontrivial_key(case, res):
 # ------------------------------------------------------------------------------------------------
 # independent closed forms used by the oracles (plain arithmetic, no code of /repo, no Lean model)
 # ------------------------------------------------------------------------------------------------
+def due_days(delay, trd):
+    """days between the tag date and the recorded end of a program repair: the first daily update on which
+    days-since-tagged >= repair delay + reporting delay, and never before the first update - for a fractional
+    configured delay the first whole day that is not earlier than delay + reporting delay"""
+    import math
+    from fractions import Fraction
+
+    return max(1, int(math.ceil(Fraction(delay) + trd)))
+
+
 def natural_end(start, nrd):
     """first day on which the emission is no longer active if nobody intervenes (F3 absorbed:
     an emission activated on day a is active at least that day)"""
@@ -239,14 +263,14 @@ def hypothesis_keys(case, res):
     if ft is not None and rep:
         T, e = ft
         keys.append("tagged-while-active")
-        if T + max(1, delay + e[2]) > natural_end(start, nrd):
+        if T + due_days(delay, e[2]) > natural_end(start, nrd):
             keys.append("tag-fewer-than-delta-days-before-natural-end")
-        if T + max(1, delay + e[2]) == natural_end(start, nrd):
+        if T + due_days(delay, e[2]) == natural_end(start, nrd):
             keys.append("repair-due-exactly-at-natural-end")
-        if T + max(1, delay + e[2]) > n:
+        if T + due_days(delay, e[2]) > n:
             keys.append("repair-due-after-horizon")
         later = [x for x in evs if not (len(x) > 3 and x[3] == 1) and x is not e and x[0] >= T
-                 and x[0] < min(natural_end(start, nrd), n, T + max(1, delay + e[2]))]
+                 and x[0] < min(natural_end(start, nrd), n, T + due_days(delay, e[2]))]
         if any(x[1] != e[1] or x[2] != e[2] for x in later):
             keys.append("second-tag-differs-while-waiting")
     if res["status"] == "repaired" and res["by"].startswith("c"):
@@ -485,19 +509,63 @@ def _focus_sims(k):
     return f
 
 
+def _focus_fractional(k):
+    def f(cfg):
+        # fractional repair delays ([2.5, 6.5] / [0.75, 10.25] from the catalogue) together with reporting delays
+        # 1 / 0 / 2 on the tagging methods (0.75 + 1: repaired 2 days after the tag, never 1), programs that tag
+        rd = [1, 0, 2][k % 3]
+        for m in COMPONENT_METHODS:
+            _focus(cfg, "delays", ("methods", m, "reporting_delay"), rd)
+        cfg["methods"]["OGI"].update({"months": list(range(1, 13)), "surveys_per_year": 6, "spatial": 1.0, "mdl": 0.125})
+        cfg["rep"]["duration"] = max(cfg["rep"]["duration"], 120)
+    return f
+
+
 WIDE_SHAPES = [
     lambda k: {"wide": True, "n_sites": 5},                                              # all tags
     lambda k: {"wide": ["repairs", "delays"], "n_sites": 6, "_focus": _focus_repairs(k)},
     lambda k: {"wide": ["durations", "sims"], "n_sites": 6, "ndays": [120, 200][k % 2], "_focus": _focus_durations(k)},
     lambda k: {"wide": ["coverage"], "n_sites": 5, "_focus": _focus_coverage(k)},
+    lambda k: {"wide": ["fractional"], "n_sites": 6, "_focus": _focus_fractional(k)},
     lambda k: {"wide": ["crews", "workday", "freq"], "n_sites": 6},
     lambda k: {"wide": ["months", "years", "weather"], "n_sites": 6},
-    lambda k: {"wide": WIDE_TAGS, "n_sites": 5, "_focus": _focus_sims(k)},
+    lambda k: {"wide": WIDE_TAGS + ["fractional"], "n_sites": 5, "_focus": _focus_sims(k)},
     lambda k: {"wide": ["coverage", "delays", "repairs", "durations"], "n_sites": 5},
+    lambda k: {"wide": ["sims-batch"], "n_sites": 4, "ndays": 120},                      # 6 / 7 simulations: two batches
 ]
 
+# "history" shape: the run the user asked for comes SECOND in its folder; an earlier run with one defining
+# leaf changed has left its generator folder and outputs behind (wholerun.prev_variant / run_after)
+HISTORY_KINDS = ["period-start", "duration", "rates", "repair-delay", "n-sims", "site-count", "pre-sim",
+                 "period-end", "coverage", "mdl"]
 
-def run_configs(ctx, n, extra_sources_every=0, crash_is_broken=False, shapes=False, n_wide=0, **overrides):
+
+def history_job(ctx, W, j, overrides):
+    import random as _r
+
+    what = HISTORY_KINDS[j % len(HISTORY_KINDS)]
+    ov = dict(overrides)
+    st = [[2023, 7, 1], [2022, 5, 1], [2024, 3, 1]][j % 3]
+    ov.update({"start": st, "end": [st[0], 12, 31] if j % 2 == 0 else [st[0], 11, 15], "n_sites": 5})
+    cfg = W.make_config(ctx.rng, **ov)
+    # programs that really tag and repair, long-lived leaks, leaks from before the period
+    cfg["methods"]["OGI"].update({"months": list(range(1, 13)), "surveys_per_year": 6, "spatial": 1.0, "mdl": 0.125,
+                                  "survey_time": 60, "crew_count": 2, "consider_daylight": False})
+    cfg["consider_weather"] = False
+    cfg["daylight"] = None
+    cfg["pre_sim_emissions"] = True
+    cfg["rep"] = {"epr": 0.03125, "duration": 365, "multi": True}
+    base = ctx.rng.randrange(1 << 30)
+    prev, kind = None, None
+    for t in range(400):
+        prev, kind = W.prev_variant(cfg, _r.Random(base + t))
+        if kind == what:
+            break
+    ctx.count("history:%s" % kind)
+    return prev, cfg, kind
+
+
+def run_configs(ctx, n, extra_sources_every=0, crash_is_broken=False, shapes=False, n_wide=0, n_history=0, **overrides):
     """n generated configurations run by the real simulator (in parallel); returns list of Result.
     `extra_sources_every=k`: every k-th configuration is granular with the opt-in extra sources
     (non-persistent non-repairable source, second repairable source on one component)"""
@@ -505,6 +573,10 @@ def run_configs(ctx, n, extra_sources_every=0, crash_is_broken=False, shapes=Fal
     from harness import wholerun as W
 
     cfgs, modes = [], []
+    for j in range(n_history):
+        prev, cfg, kind = history_job(ctx, W, j, overrides)
+        cfgs.append(cfg)
+        modes.append({"debug": True, "processes": 1, "prev": prev, "what_differs": kind})
     for j in range(n_wide):
         ov = dict(overrides)
         ov.update(WIDE_SHAPES[j % len(WIDE_SHAPES)](j // len(WIDE_SHAPES)))
@@ -548,9 +620,20 @@ def run_configs(ctx, n, extra_sources_every=0, crash_is_broken=False, shapes=Fal
         modes.append(mode)
         if shapes:
             ctx.count("wholerun_shape:%d" % (i % len(WHOLERUN_SHAPES)))
-    with cf.ThreadPoolExecutor(max_workers=min(10, max(1, len(cfgs)))) as ex:
-        results = list(ex.map(lambda cm: W.run_config(cm[0], debug=cm[1]["debug"], processes=cm[1]["processes"],
-                                                      trace=True), zip(cfgs, modes)))
+    with cf.ThreadPoolExecutor(max_workers=min(12, max(1, len(cfgs)))) as ex:
+        def go(cm):
+            cfg, mode = cm
+            if mode.get("prev") is not None:
+                r = W.run_after(mode["prev"], cfg, debug=True, processes=1, trace=True)
+                r.history = mode["what_differs"]
+                return r
+            return W.run_config(cfg, debug=mode["debug"], processes=mode["processes"], trace=True)
+
+        results = list(ex.map(go, zip(cfgs, modes)))
+    for r in results:
+        if getattr(r, "history", None) and getattr(r, "prev_rc", 0) != 0:
+            ctx.count("history_first_run_stopped")
+            ctx.note("history (%s): the earlier run in the folder stopped with rc %s" % (r.history, r.prev_rc))
     good = []
     for r in results:
         if r.rc != 0:
@@ -726,7 +809,10 @@ def conform_records(ctx, res, recs):
     """trace conformance: each record must be reproduced by the Lean model from (start, nrd, kind,
     tag events of its component) for at least one of the configured repair delays"""
     method_ids = {m: i + 1 for i, m in enumerate(sorted(res.cfg["methods"]))}
-    delays = [int(x) for x in res.cfg["repair_delay"]]
+    from harness.adapters.emission import ceil_days
+
+    # the model takes whole days: a fractional configured delay enters as its ceiling (C04_fractional_delay)
+    delays = sorted({ceil_days(x) for x in res.cfg["repair_delay"]})
     lines, owners = [], []
     for rec in recs:
         for dl in (delays if rec["repairable"] else delays[:1]):
@@ -775,11 +861,13 @@ def base_fields(rec):
             "endDateStr": b["Date Repaired or Expired"]}
 
 
-def wholerun_stage(ctx, n_quick, n_thorough, per_record, per_result=None, wide_quick=4, wide_thorough=12, **overrides):
+def wholerun_stage(ctx, n_quick, n_thorough, per_record, per_result=None, wide_quick=5, wide_thorough=12,
+                   history_quick=1, history_thorough=5, **overrides):
     """runs generated configurations through the real simulator; trace conformance of every record
     against the Lean model; `per_record(ctx, res, rec)` evaluates the property's oracle"""
     results = run_configs(ctx, ctx.pick(n_quick, n_thorough), shapes=True, crash_is_broken=True,
-                          n_wide=ctx.pick(wide_quick, wide_thorough), **overrides)
+                          n_wide=ctx.pick(wide_quick, wide_thorough),
+                          n_history=ctx.pick(history_quick, history_thorough), **overrides)
     try:
         for res in results:
             recs = list(records(res))
@@ -803,7 +891,7 @@ def wholerun_stage(ctx, n_quick, n_thorough, per_record, per_result=None, wide_q
             ctx.count("wholerun_configs")
             ctx.sample({"whole_run": {k: res.cfg[k] for k in ("granular", "start", "end", "n_sites", "n_sims", "repair_delay")},
                         "programs": [p["name"] for p in res.cfg["programs"]], "processes": res.cfg.get("processes"),
-                        "wide_applied": res.cfg.get("wide_applied"),
+                        "wide_applied": res.cfg.get("wide_applied"), "history": getattr(res, "history", None),
                         "sources": [(x["source"], x["component"], x["repairable"], x["persistent"])
                                     for x in res.cfg.get("sources", [])],
                         "records": len(recs)}, cap=8)
@@ -1010,7 +1098,9 @@ def shared_input_stage(ctx, per_case):
         n = ctx.rng.randint(2, 10)
         nrd = ctx.rng.randint(1, 7)
         specs.append({"rep": rep, "inter": inter, "ad": ad, "idur": idur, "nrd": nrd,
-                      "delays": [ctx.rng.randint(0, 4) for _ in range(ctx.rng.randint(1, 4))],
+                      "delays": (ctx.rng.choice([[2.5, 6.5], [0.75, 10.25], [0.5], [1.5, 3], [2, 2.25, 0.25]])
+                                 if ctx.rng.random() < 0.3 else
+                                 [ctx.rng.randint(0, 4) for _ in range(ctx.rng.randint(1, 4))]),
                       "costs": [float(ctx.rng.choice([64, 128, 256])) for _ in range(ctx.rng.randint(1, 3))],
                       "covs": {"c1": 1.0, "c2": 0.5},
                       "starts": [ctx.rng.randint(-nrd, n) for _ in range(ctx.rng.randint(2, 5))],
